@@ -421,27 +421,45 @@ fn run(prop: &str, tier: &str) -> i32 {
             .map(|(c, d)| {
                 let known = &known;
                 sc.spawn(move || {
-                    let m = Ics20Model { cfg: c.clone() };
+                    let m = Ics20Model { cfg: c.clone(), steps: Default::default() };
                     let b = Bounds {
                         max_depth: *d,
                         max_states: 8_000_000,
                         max_secs: if thorough { 3000.0 } else { 300.0 },
                     };
                     let pool = rayon::ThreadPoolBuilder::new().num_threads(per).build().expect("thread pool");
-                    pool.install(|| mc::bfs(&m, &b, known, seed))
+                    let verbose = std::env::var("ICS20_VERBOSE").is_ok();
+                    let done = std::sync::atomic::AtomicBool::new(false);
+                    std::thread::scope(|s2| {
+                        if verbose {
+                            s2.spawn(|| {
+                                let t0 = std::time::Instant::now();
+                                let mut last = 0u64;
+                                while !done.load(std::sync::atomic::Ordering::Relaxed) {
+                                    std::thread::sleep(std::time::Duration::from_millis(500));
+                                    let secs = t0.elapsed().as_secs();
+                                    if secs >= last + 60 {
+                                        last = secs;
+                                        eprintln!("  .. {} {}s transitions={}", m.cfg.name, secs, m.steps.load(std::sync::atomic::Ordering::Relaxed));
+                                    }
+                                }
+                            });
+                        }
+                        let r = pool.install(|| mc::bfs(&m, &b, known, seed));
+                        done.store(true, std::sync::atomic::Ordering::Relaxed);
+                        if verbose {
+                            eprintln!(
+                                "  {:62} states={:8} trans={:10} depth={:3} fix={} cap={:?} wall={:.1}s",
+                                r.config, r.states, r.transitions, r.depth_completed, r.fixpoint, r.cap_hit, r.wall_s
+                            );
+                        }
+                        r
+                    })
                 })
             })
             .collect();
         hs.into_iter().map(|h| h.join().expect("explorer thread panicked")).collect()
     });
-    if std::env::var("ICS20_VERBOSE").is_ok() {
-        for r in &runs {
-            eprintln!(
-                "  {:55} states={:8} trans={:10} depth={:3} fix={} cap={:?} wall={:.1}s",
-                r.config, r.states, r.transitions, r.depth_completed, r.fixpoint, r.cap_hit, r.wall_s
-            );
-        }
-    }
     rep.runs = runs;
     rep.finish()
 }
@@ -456,7 +474,7 @@ fn main() {
             .chain(configs(&rf.property, true))
             .collect();
         match all.into_iter().find(|(c, _)| c.name == rf.config) {
-            Some((c, _)) => run_replay(&Ics20Model { cfg: c }, &rf),
+            Some((c, _)) => run_replay(&Ics20Model { cfg: c, steps: Default::default() }, &rf),
             None => {
                 eprintln!("machinery error: unknown config {}", rf.config);
                 2
